@@ -27,9 +27,9 @@ META = {
                   'on the implementation through guarded yield points (hook H2) under a cooperative deterministic scheduler'),
     'design_ref': 'DESIGN.md section 4 C20',
     'theorems': ['C20_memo_linearizable', 'C20_memo_sequential', 'C20_protocols', 'C20_load_plain', 'C20_dump_plain',
-                 'C20_env_plain', 'C20_partial', 'C20_refuted_hook_scan', 'C20_refuted_path_fill',
+                 'C20_env_plain', 'C20_hook_scan_repaired', 'C20_partial', 'C20_refuted_hook_scan', 'C20_refuted_path_fill',
                  'C20_refuted_defaults_fill', 'C20_refuted_v1_catchall_pop', 'C20_refuted_env_reload',
-                 'C20_hook_table'],
+                 'C20_repairs_remove_witnesses', 'C20_hook_table'],
     'tables': ['ConcHooks'],
     'level_text': ('PARTIAL. Proved in Coq for ALL schedules (any number of threads, unbounded length, one scheduling point per '
                    'shared-table access): a program whose every write stores an admissible value for its key and whose result '
@@ -40,7 +40,10 @@ META = {
                    'Env.cleaned_to_env) and for the complete first-load / first-dump / EnvWizard-instantiate programs of classes '
                    'in the safe region (no JSON-path fields; no skip_defaults with default fields; values of hook-table types; '
                    'no _reload). Outside it the faithful model is REFUTED with concrete schedules (hook scan, two-phase path '
-                   'tables, FIELD_TO_DEFAULT registered empty, v1 catch-all pop, Env.reload), each reproduced on the implementation.'),
+                   'tables, FIELD_TO_DEFAULT registered empty, v1 catch-all pop, Env.reload), each reproduced on the implementation. '
+                   'The repaired hook scan (iterate over tuple(hooks)) is proved memo-shaped for every value type; the other four '
+                   'proposed repairs are only shown to remove the witness schedules in the model and checked on a repaired tree by '
+                   'the bounded exploration.'),
     'level_note': ('The theorem is about the micro-step model: preemption between two shared-table accesses. Not exhibited: races '
                    'inside one micro-step (between bytecodes of a dict-free statement), GIL release points inside C extensions, '
                    'free-threaded (no-GIL) builds where single dict operations are still atomic but the model rule R4 is not '
@@ -466,6 +469,7 @@ def run(ctx):
                           {'scenario': impl_scenario(sc)}, no_input=True)
             continue
         n_nonseq = 0
+        n_viol = 0
         for rn in res.get('runs', []):
             sched = [d[2] for d in rn.get('decisions', [])]
             if rn.get('status') != 'ok':
@@ -492,9 +496,13 @@ def run(ctx):
                 if all(x == 'seq' for row in tags for x in row):
                     unexplained.append(['vector', 'every call has a sequential outcome but no single order explains all'])
                 if unexplained:
-                    ctx.violation('scenario %s: outcome of no sequential order under schedule %s: %s'
-                                  % (sc.name, sched, unexplained),
-                                  {'scenario': impl_scenario(sc), 'schedule': sched, 'name': sc.name})
+                    n_viol += 1
+                    if n_viol <= 3:     # a defect usually fails under many schedules: report the first few per scenario
+                        ctx.violation('scenario %s: outcome of no sequential order under schedule %s: %s'
+                                      % (sc.name, sched, unexplained),
+                                      {'scenario': impl_scenario(sc), 'schedule': sched, 'name': sc.name})
+                    else:
+                        ctx.hist('further_violating_schedules:' + sc.name, 1)
             # (b) model prediction for the same schedule
             if id(rn) in preds:
                 ctx.traces_validated += 1
